@@ -496,7 +496,20 @@ def run_session(world, spec, record_events=False):
     mode = spec["mode"]
     if mode == "ipc" and spec["helper"] in ("has_version", "best_version"):
         mode = "fn"
-    argv = ["bash", world.driver, mode, "true" if spec["nonfatal"] else "false", "install", req["cmd"], req["opts"]] + req["args"]
+    fol = build_followup(spec)
+    obs["fol"] = fol
+    records = [("request", mode, req["cmd"], req["opts"], req["args"])]
+    if fol is not None:
+        records.append(("followup", "ipc", fol["cmd"], fol["opts"], fol["args"]))
+    records.append(("sentinel", "script" if mode == "script" else "ipc", "dodir", "", ["/sentinel"]))
+    obs["tags"] = [r[0] for r in records]
+    spec_path = os.path.join(world.run_dir, "session.spec")
+    with open(spec_path, "wb") as f:
+        for tag, m, cmd, opts, args in records:
+            for field in [tag, m, cmd, opts, str(len(args))] + list(args):
+                f.write(field.encode() + b"\0")
+    env["VERIF_SPEC"] = spec_path
+    argv = ["bash", world.driver, "true" if spec["nonfatal"] else "false", "install"]
     proc = subprocess.Popen(argv, env=env, pass_fds=(rp_r, rq_w), stdin=subprocess.DEVNULL, stdout=subprocess.DEVNULL, stderr=subprocess.DEVNULL)
     os.close(rp_r)
     os.close(rq_w)
@@ -510,6 +523,17 @@ def run_session(world, spec, record_events=False):
     real_write = ebp.write
     inj = faults.Injector(world.run_dir)
 
+    obs["dispatched"] = []
+
+    def counted(name, helper):
+        def call(ebd):
+            obs["dispatched"].append(name)
+            return helper(ebd)
+
+        return call
+
+    handlers = {k: counted(k, h) for k, h in op._ipc_helpers.items()}
+
     def write(string, *a, **kw):
         obs["replies"].append(str(string))
         obs["events_at_reply"].append(len(inj.events))
@@ -520,7 +544,7 @@ def run_session(world, spec, record_events=False):
 
     def serve():
         try:
-            ok = ebp.generic_handler(additional_commands=op._ipc_helpers)
+            ok = ebp.generic_handler(additional_commands=handlers)
             return "finished" if ok else "finished-false"
         except ebd_ipc.IpcError as e:
             obs["ipc_error"] = [type(e).__name__, e.code, str(e.msg)[:200]]
@@ -575,6 +599,7 @@ def run_session(world, spec, record_events=False):
     obs["stderr"] = _read(world.status + ".request.err").decode("utf-8", "replace")
     obs["warns"] = [c for c in op.observer.calls if c[0] == "warn"]
     obs["effect"] = effect_present(world, op, req)
+    obs["fol_effect"] = effect_present(world, op, fol) if fol is not None else None
     return obs
 
 
@@ -650,7 +675,6 @@ def judge(spec, obs):
         if len(parts) >= 2:
             st[parts[0]] = parts[1:]
     req_st = st.get("request")
-    sen_st = st.get("sentinel")
     died = req_st == ["died"]
     status = int(req_st[1]) if req_st and req_st[0] == "returned" else None
     faulted = bool(spec.get("fault"))
@@ -659,6 +683,8 @@ def judge(spec, obs):
     expect = req["expect"]
     eff = obs["effect"]
     kind = req["effect"][0]
+    tags = obs["tags"]
+    ndisp = len(obs["dispatched"])
 
     if outcome == "timeout" or (isinstance(outcome, str) and outcome.startswith(("harness:", "protocol-error"))):
         v.append(("channel", f"session did not complete: {outcome}; status file {lines}"))
@@ -667,16 +693,18 @@ def judge(spec, obs):
         v.append(("channel", f"request never returned on the bash side; python outcome {outcome}"))
         return v, "broken-session"
 
-    # --- framing: one single-line reply per request served
+    # --- framing: every dispatched request is answered by exactly one single-line reply
     for r in obs["replies"]:
         if "\n" in r:
             v.append(("multi-line-reply", f"reply spans several lines: {r[:120]!r}"))
-    if outcome == "finished" and len(obs["replies"]) != 2:
-        v.append(("reply-count", f"{len(obs['replies'])} replies written for 2 requests: {obs['replies']!r}"[:300]))
-    if outcome in ("ipc-error:bash-died", "internal-error") and len(obs["replies"]) != 1:
-        v.append(("reply-count", f"{len(obs['replies'])} replies written for 1 request: {obs['replies']!r}"[:300]))
+    if len(obs["replies"]) != ndisp:
+        v.append(("reply-count", f"{len(obs['replies'])} replies written for {ndisp} requests: {obs['replies']!r}"[:300]))
+    if outcome == "finished" and ndisp != len(tags):
+        v.append(("channel", f"phase finished after {ndisp} of {len(tags)} requests were seen by the python side"))
+    # which request was being served when the python side left the handler (if it did)
+    failing_tag = tags[ndisp - 1] if outcome != "finished" and 0 < ndisp <= len(tags) else None
 
-    # --- truth: status 0 <=> the requested effect is there
+    # --- truth for the request under test: status 0 <=> the requested effect is there
     success = status == 0 and not died
     legit_nonzero = False
     if kind == "status-is-answer":
@@ -704,40 +732,60 @@ def judge(spec, obs):
         if expect == "fail" and success and not any(k == "false-success" for k, _ in v):
             v.append(("false-success", f"a request that cannot be carried out reported status 0 ({req['cmd']} {req['args']})"))
 
-    # --- agreement between the two sides, nonfatal / fatal behaviour, sentinel
-    if outcome == "finished":
+    # --- the request under test: agreement of the two sides, nonfatal / fatal behaviour
+    request_ended_phase = failing_tag == "request"
+    if not request_ended_phase:
         if died:
-            v.append(("channel", "bash side died although the python side completed the phase"))
-        elif sen_st != ["returned", "0"]:
-            v.append(("sentinel", f"sentinel request did not get its own successful reply: {sen_st}, replies {obs['replies']!r}"[:300]))
-        elif not os.path.isdir(os.path.join(obs["world_image"], "sentinel")):
-            v.append(("sentinel", "sentinel status 0 but /sentinel was not created"))
-        if not success and not died and not legit_nonzero:
+            v.append(("channel", "bash side died in the request although the python side answered it and went on"))
+        elif not success and not legit_nonzero:
             # failure reported to bash without ending the phase: only legitimate for nonfatal requests
             if not nonfatal:
                 v.append(("fatal-not-fatal", f"fatal request returned {status} and the phase carried on"))
             elif not obs["stderr"].strip():
                 v.append(("nonfatal-no-message", f"nonfatal failure status {status} without a message"))
-    elif outcome == "ipc-error:bash-died":
-        # die() inside a nested subshell cannot stop its parents; python kills the daemon on 'dying', so the python
-        # side is authoritative here
-        if nonfatal:
-            v.append(("nonfatal-was-fatal", f"nonfatal request ended the phase: {obs['ipc_error']}"))
-    elif outcome in ("ipc-error:bash-carried-on", "ipc-error:bash-exited"):
-        v.append(
-            (
-                "build-failed-though-status-0" if status == 0 else "channel",
-                f"python side failed the phase with {obs['ipc_error']} (reply {obs['replies'][-1]!r}) but bash got status {status} and carried on",
+    else:
+        if outcome == "ipc-error:bash-died":
+            # die() inside a nested subshell cannot stop its parents; python kills the daemon on 'dying', so the
+            # python side is authoritative here
+            if nonfatal:
+                v.append(("nonfatal-was-fatal", f"nonfatal request ended the phase: {obs['ipc_error']}"))
+        elif outcome in ("ipc-error:bash-carried-on", "ipc-error:bash-exited"):
+            v.append(
+                (
+                    "build-failed-though-status-0" if status == 0 else "channel",
+                    f"python side failed the phase with {obs['ipc_error']} (reply {obs['replies'][-1]!r}) but bash got status {status} and carried on",
+                )
             )
-        )
-    elif outcome == "internal-error":
-        pass  # one failure reply was written (checked above); success with a missing effect is caught above
-    elif outcome == "bash-died-unprompted":
-        v.append(("channel", f"bash side died without the python side reporting an error: {obs.get('die', '')[:160]!r}"))
+        elif outcome == "internal-error":
+            pass  # one failure reply was written (checked above); success with a missing effect is caught above
+        elif outcome == "bash-died-unprompted":
+            v.append(("channel", f"bash side died without the python side reporting an error: {obs.get('die', '')[:160]!r}"))
+
+    # --- the requests after it: a plain valid request to the same helper, then the sentinel
+    if not request_ended_phase:
+        for tag in tags[1:]:
+            tst = st.get(tag)
+            what = "sentinel 'dodir /sentinel'" if tag == "sentinel" else f"valid follow-up request {obs['fol']['cmd']} {obs['fol']['args']}"
+            if failing_tag == tag:
+                cause = str(obs.get("internal_cause", ""))
+                k = f"{tag}-dead-coroutine" if outcome == "internal-error" and cause.startswith("StopIteration") else f"{tag}-failed"
+                v.append((k, f"{what} after the request under test failed on the python side: {outcome} {obs['ipc_error']} {cause}"))
+                break
+            if tst != ["returned", "0"]:
+                v.append((f"{tag}-failed", f"{what} did not get its own successful reply: {tst}; replies {obs['replies']!r}"[:300]))
+                break
+            if tag == "sentinel" and not os.path.isdir(os.path.join(obs["world_image"], "sentinel")):
+                v.append(("sentinel-failed", "sentinel status 0 but /sentinel was not created"))
+            if tag == "followup" and obs["fol_effect"] is not True:
+                v.append(("followup-failed", f"{what} returned 0 but its effect is absent"))
 
     cls = outcome
-    if outcome == "finished":
+    if request_ended_phase is False and outcome != "finished":
+        cls = "later-request:" + outcome
+    if outcome == "finished" or not request_ended_phase:
         cls = "ok" if success else ("answer-false" if legit_nonzero else "nonfatal-failure-reported")
+        if outcome != "finished":
+            cls += "+later-request-failed"
         if any(w for w in obs["warns"] if "falling back" in str(w[1])):
             cls += "+external-install"
     return v, cls
@@ -818,18 +866,17 @@ def replay(case):
 # ------------------------------------------------------------------ known-defect classifier (narrow)
 
 FALLBACK_CAPABLE = (set(IW) - IGNORES_INSOPTIONS) | {"dodir", "keepdir"}
+DEAD = {"followup-dead-coroutine", "sentinel-dead-coroutine"}
 
 
 def _c_install_status_inverted(case):
     """request whose insoptions/diroptions force the external `install` fallback ('-m u+x', '--bogus'), and the only
     things wrong are the signatures of `if not ret: raise`: success reported although install failed / stopped after
-    the first file, or the phase failed on the python side although bash was told status 0"""
-    return (
-        case["helper"] in FALLBACK_CAPABLE
-        and case["optmode"] in ("mux", "bogus")
-        and bool(case["kinds"])
-        and set(case["kinds"]) <= {"false-success", "build-failed-though-status-0"}
-    )
+    the first file, or the phase failed on the python side although bash was told status 0 (the exception raised for a
+    *successful* install also finishes the installer coroutine, so a later request may find it dead)"""
+    own = {"false-success", "build-failed-though-status-0"}
+    kinds = set(case["kinds"])
+    return case["helper"] in FALLBACK_CAPABLE and case["optmode"] in ("mux", "bogus") and bool(kinds & own) and kinds <= own | DEAD
 
 
 def _c_multiline_message(case):
@@ -839,11 +886,18 @@ def _c_multiline_message(case):
         case["helper"] in ("unpack", "eapply")
         and case["variant"] in ("corrupt", "does-not-apply")
         and "multi-line-reply" in case["kinds"]
-        and set(case["kinds"]) <= {"multi-line-reply", "sentinel"}
+        and set(case["kinds"]) <= {"multi-line-reply", "sentinel-failed"}
     )
+
+
+def _c_dead_coroutine(case):
+    """after a request failed inside one of the helper's installer coroutines (generator-based: an exception finishes
+    the generator) the next valid request to the same helper instance dies with StopIteration -> 'internal failure'"""
+    return bool(case["kinds"]) and set(case["kinds"]) <= DEAD
 
 
 CLASSIFIERS = {
     "external-install-status-inverted": _c_install_status_inverted,
     "error-message-newlines-in-reply": _c_multiline_message,
+    "helper-unusable-after-failed-request": _c_dead_coroutine,
 }
